@@ -7,6 +7,7 @@ import TealerModel.Generated.OpTable
 import TealerModel.Spec.OpTable
 import TealerModel.Ast
 import TealerModel.Lemmas.StackEffect
+import TealerModel.Lemmas.OperandValues
 namespace Tealer.C11
 
 /-- every non-family opcode sample: class, printed form, pops, pushes, introduction version and mode built by the
@@ -123,5 +124,30 @@ theorem C11_semantics_effect (prog : List Ins) (e : Avm.Env) (s s' : Avm.State) 
       ∃ pushed : List Avm.Val, pushed.length = i.op.pushes ∧
         s'.stack = s.stack.take (s.stack.length - i.op.pops) ++ pushed :=
   StackEffect.step_effect prog e s s' i hi hno hs
+
+/-- THE RECONSTRUCTED OPERANDS ARE THE VALUES THE AVM PASSES.  Along a block, keep for every tag (q, j) the value instruction
+    q pushed as output j (`valOf`).  If the symbolic stack agrees with the concrete stack before a step of a dedicated
+    opcode (tagged cells hold the recorded values; Unknown cells are values from before the block), then
+    * the operand list `astStep` — one step of construct_stack_ast — reconstructs for this instruction agrees position by
+      position with the values the instruction really pops: a reference (q, j) IS the value instruction q pushed as its
+      output j, and
+    * the symbolic stack after the step agrees with the concrete stack after the step, with the instruction's own outputs
+      recorded.
+    By induction along the block this is the link between a matched leaf (`txn Fee` compared with `int c`) and the concrete
+    comparison the AVM performs. -/
+theorem C11_operands_are_runtime_values (prog : List Ins) (e : Avm.Env) (s s' : Avm.State) (i : Ins) (p : Nat)
+    (hi : prog[s.pc]? = some i) (hno : ∀ name po pu, i.op ≠ .other name po pu) (hs : Avm.step prog e s = .next s')
+    (valOf : Nat × Nat → Avm.Val) (sym : List Ref) (hsim : OperandValues.VSim valOf sym s.stack)
+    (hfresh : ∀ c ∈ sym, ∀ q, c = some q → q.1 ≠ p) :
+    ∃ pushed : List Avm.Val, pushed.length = i.op.pushes ∧
+      List.Forall₂ (OperandValues.Agree valOf) (astStep sym p i.op).1 (s.stack.drop (s.stack.length - i.op.pops)) ∧
+      OperandValues.VSim (OperandValues.extend valOf p pushed) (astStep sym p i.op).2 s'.stack := by
+  obtain ⟨hpops, pushed, hlen, hstack⟩ := StackEffect.step_effect prog e s s' i hi hno hs
+  obtain ⟨h1, h2⟩ := OperandValues.vsim_step valOf sym s.stack s'.stack p i.op pushed hsim hfresh hpops hlen hstack
+  exact ⟨pushed, hlen, h1, h2⟩
+
+/-- the premises are satisfiable: at block entry the symbolic stack is empty and agrees with any concrete stack -/
+example (valOf : Nat × Nat → Avm.Val) (st : List Avm.Val) : OperandValues.VSim valOf [] st :=
+  ⟨st, [], by simp, List.Forall₂.nil⟩
 
 end Tealer.C11
